@@ -139,6 +139,16 @@ def run_impl(case):
         for r in list(M.constraints):
             getattr(s, "add_constraint_%s_zero" % r)({(lab,): 1, (): -1 if r in ("eq", "le", "ge") else 0}, lam=1, suppress_warnings=True)
         still("a constraint added to M + M")
+    # ---- update(): the receiver takes the terms and the constraint records over, not the argument's containers
+    if hasattr(M, "constraints"):
+        H2 = type(M)()
+        H2.update(M)
+        lab2 = C.POOL[4]
+        for r in list(M.constraints) or ["eq"]:
+            getattr(H2, "add_constraint_%s_zero" % r)({(lab2,): 1, (): -1 if r in ("eq", "le", "ge") else 0}, lam=1, suppress_warnings=True)
+            still("a constraint (%s) added to a model that was update()d from M" % r)
+        H2[(lab2,)] += 3
+        still("an edit of a model that was update()d from M")
     # ---- library functions leave their arguments alone (the purity monitor compares deep snapshots before / after)
     try:
         menu_calls(M, case)
